@@ -47,6 +47,8 @@ func init() {
 			r.Try(func() { ruleSortedCreation(w, r, "R11.5") })
 			r.Rule("R11.6", 1, "a list whose snapshot Close takes by plain copy is never compacted or overwritten in place")
 			r.Try(func() { ruleSnapshotFieldsNotMutatedInPlace(w, r, "R11.6", la) })
+			r.Rule("R11.7", 8, "a scope that is created while its parent or the provider is closing is refused (typestate of the tables Close resets): otherwise it outlives, and is disposed after, its owner")
+			r.Try(func() { checkTypestateAs(w, r, la, "R11.7") })
 		})
 
 	register("C12",
@@ -87,6 +89,8 @@ func init() {
 			r.Try(func() { ruleSwap(w, r, "R13.3s", la) })
 			r.Try(func() { ruleCancelOwnership(w, r, "R13.3b") })
 			r.Try(func() { ruleWatcher(w, r, "R13.4") })
+			r.Rule("R13.5", 5, "setInstance is the last guard for resolutions in flight when Close ran: an instance that arrives at a closed scope is disposed (or refused) and ErrScopeDisposed is returned")
+			r.Try(func() { ruleTracking(w, r, "R13.5", "", "") })
 		})
 
 	register("C14",
@@ -105,6 +109,8 @@ func init() {
 			r.Try(func() { ruleCancelOwnership(w, r, "R14.5") })
 			r.Try(func() { ruleWatcher(w, r, "R14.6") })
 			r.Try(func() { ruleGate(w, r, "R14.g") })
+			r.Rule("R14.7", 1, "the scope owns its cancel function before the initializer pass can fail and close it")
+			r.Try(func() { ruleCancelBeforeInitializers(w, r, "R14.7") })
 		})
 }
 
